@@ -17,11 +17,12 @@ None == "<none>"
 DefinedTags == {"In", "Level", "Out1", "Run Counter", "Block Time"}
 DefinedCommands == {"Short", "Set1", "Set2", "Mark", "Wait", "Info"}
 
-TagRefs == DefinedTags \cup {"Inn", "Levle", "Qzqzq", "Qz", ""}       \* close misspellings, far, short, missing
+\* close misspellings, far, short, missing, and one much longer than any defined name (the "did you mean" search must cope)
+TagRefs == DefinedTags \cup {"Inn", "Levle", "Qzqzq", "Qz", "", "Conductivity of the eluate after the second column"}
 Ops == {"", ">", "=", "<="}
 Values == {"", "5", "2.5"}
 Units == {None, "L/h", "L", "s", "L/min", "kg", "xyz"}
-CmdRefs == DefinedCommands \cup {"Shrot", "Zzzzzz", "Se"}
+CmdRefs == DefinedCommands \cup {"Shrot", "Zzzzzz", "Se", "Foo", "Equilibrate column with five volumes of buffer"}
 Args == {None, "5", "5 L/h", "5 kg", "abc", "0.5s"}
 
 VARIABLES kind, parts, line, mustFlag
